@@ -46,6 +46,23 @@ def ext(name):
 WIDTHS = {1: "8", 2: "16", 3: "24", 4: "32", 8: "64"}
 
 
+def _refine_codec(ex, nbytes, seq: T, val: T):
+    """Layer-W instance (concrete big-endian layout) for this codec occurrence.  Kept aside: only
+    used to refine a 'sat' answer (better counterexamples, or a proof that needed the layout)."""
+    from .smt import seq_nth
+    key = (seq.s, val.s)
+    if key in ex.refine_seen:
+        return
+    ex.refine_seen.add(key)
+    digits = [seq_nth(seq, I(i)) for i in range(nbytes)]
+    total = I(0)
+    for i, d in enumerate(digits):
+        total = Add(total, Mul(d, I(256 ** (nbytes - 1 - i))))
+    rng = And(*[And(Le(I(0), d), Lt(d, I(256))) for d in digits])
+    ex.refine_facts.append(Implies(And(Eq(seq_len(seq), I(nbytes)), Le(I(0), val), Lt(val, I(256 ** nbytes))),
+                                   And(rng, Eq(val, total))))
+
+
 def be(ex, st: State, nbytes: int, x: T) -> T:
     name = f"be{WIDTHS[nbytes]}"
     uname = f"u{WIDTHS[nbytes]}"
@@ -54,6 +71,7 @@ def be(ex, st: State, nbytes: int, x: T) -> T:
     t = app(name, SEQI, x)
     st.pc.append(Eq(seq_len(t), I(nbytes)))
     st.pc.append(Implies(And(Le(I(0), x), Lt(x, I(256 ** nbytes))), Eq(app(uname, INT, t), x)))
+    _refine_codec(ex, nbytes, t, x)
     return t
 
 
@@ -65,6 +83,7 @@ def un(ex, st: State, nbytes: int, s: T) -> T:
     t = app(uname, INT, s)
     st.pc.append(And(Le(I(0), t), Lt(t, I(256 ** nbytes))))
     st.pc.append(Implies(Eq(seq_len(s), I(nbytes)), Eq(app(name, SEQI, t), s)))
+    _refine_codec(ex, nbytes, s, t)
     return t
 
 
@@ -195,7 +214,8 @@ def _fstring(ex, st, parts, vals):
             sorts.append(BOOL)
             terms.append(v.t)
         else:
-            raise Unsupported(f"f-string argument {v!r}")
+            # formatting of other values: the resulting text is unknown (opaque string)
+            return VStr(ex.arbitrary(STR, "fstr"))
     fname = "fmt$" + re.sub(r"[^A-Za-z0-9]", lambda m: f"x{ord(m.group(0)):02x}", shape)
     ex.decls.fun(fname, sorts, STR)
     t = app(fname, STR, *terms)
@@ -686,3 +706,155 @@ def _getrandbits(ex, st, args, kwargs, k, where):
         raise Unsupported("getrandbits(n) with symbolic n")
     r = ex.decls.fresh("randbits", INT)
     return k(st.assume(And(Le(I(0), r), Lt(r, I(2 ** lit_val(n.t))))), VInt(r))
+
+
+# ---- sockets (T-sock) ------------------------------------------------------------------------------
+
+@REG.specfn("str_contains")
+def _str_contains(ex, st, hay, needle):
+    hay, needle = ex.unwrap(hay), ex.unwrap(needle)
+    if getattr(hay, "lit", None) is not None and getattr(needle, "lit", None) is not None:
+        return VBool(TRUE if needle.lit in hay.lit else FALSE)
+    return VBool(_ufun(ex, "str_contains", [STR, STR], BOOL, hay.t, needle.t))
+
+
+def _addr_fns(ex, fam: int):
+    n = 4 if fam == 4 else 16
+    return (f"is_ipv{fam}", f"pton{fam}", f"ntop{fam}", f"canon_ipv{fam}", n)
+
+
+def pton(ex, st, fam, s: T) -> T:
+    isip, p, q, canon, n = _addr_fns(ex, fam)
+    t = _ufun(ex, p, [STR], SEQI, s)
+    valid = _ufun(ex, isip, [STR], BOOL, s)
+    st.pc.append(Implies(valid, And(Eq(seq_len(t), I(n)),
+                                    Implies(_ufun(ex, canon, [STR], BOOL, s),
+                                            Eq(_ufun(ex, q, [SEQI], STR, t), s)))))
+    sep = ex.decls.str_lit("." if fam == 4 else ":")
+    st.pc.append(Implies(valid, _ufun(ex, "str_contains", [STR, STR], BOOL, s, sep)))
+    return t
+
+
+def ntop(ex, st, fam, b: T) -> T:
+    isip, p, q, canon, n = _addr_fns(ex, fam)
+    t = _ufun(ex, q, [SEQI], STR, b)
+    st.pc.append(Implies(Eq(seq_len(b), I(n)),
+                         And(_ufun(ex, isip, [STR], BOOL, t), _ufun(ex, canon, [STR], BOOL, t),
+                             Eq(_ufun(ex, p, [STR], SEQI, t), b))))
+    return t
+
+
+for _fam in (4, 6):
+    def _mk2(fam):
+        def f_pton(ex, st, s):
+            return VBytes(pton(ex, st, fam, ex.unwrap(s).t))
+
+        def f_ntop(ex, st, b):
+            return VStr(ntop(ex, st, fam, ex.unwrap(b).t))
+
+        def f_is(ex, st, s):
+            return VBool(_ufun(ex, f"is_ipv{fam}", [STR], BOOL, ex.unwrap(s).t))
+
+        def f_canon(ex, st, s):
+            return VBool(_ufun(ex, f"canon_ipv{fam}", [STR], BOOL, ex.unwrap(s).t))
+        return f_pton, f_ntop, f_is, f_canon
+    _a, _b2, _c, _d = _mk2(_fam)
+    REG.specfns[f"pton{_fam}"] = _a
+    REG.specfns[f"ntop{_fam}"] = _b2
+    REG.specfns[f"is_ipv{_fam}"] = _c
+    REG.specfns[f"canon_ipv{_fam}"] = _d
+
+
+def _family(v):
+    if isinstance(v, VPy) and v.what == "ext":
+        return {"socket.AF_INET": 4, "socket.AF_INET6": 6}.get(v.obj)
+    return None
+
+
+@ext("socket.inet_pton")
+def _inet_pton(ex, st, args, kwargs, k, where):
+    fam = _family(args[0])
+    s = args[1]
+    if fam is None:
+        raise Unsupported(f"inet_pton family at {where}")
+    if not isinstance(s, VStr):
+        return ex.raise_(st, "TypeError", f"inet_pton of non-str at {where}")
+    valid = _ufun(ex, f"is_ipv{fam}", [STR], BOOL, s.t)
+    outs = ex.raise_(st.assume(Not(valid)), "OSError", f"illegal IP address string at {where}")
+    s2 = st.assume(valid)
+    outs += k(s2, VBytes(pton(ex, s2, fam, s.t)))
+    return outs
+
+
+@ext("socket.inet_ntop")
+def _inet_ntop(ex, st, args, kwargs, k, where):
+    fam = _family(args[0])
+    b = args[1]
+    if fam is None:
+        raise Unsupported(f"inet_ntop family at {where}")
+    if not isinstance(b, VBytes):
+        return ex.raise_(st, "TypeError", f"inet_ntop of non-bytes at {where}")
+    n = 4 if fam == 4 else 16
+    okl = Eq(seq_len(b.t), I(n))
+    outs = ex.raise_(st.assume(Not(okl)), "ValueError", f"invalid length of packed IP address at {where}")
+    s2 = st.assume(okl)
+    outs += k(s2, VStr(ntop(ex, s2, fam, b.t)))
+    return outs
+
+
+# ---- datetime (T-time: process TZ=UTC, naive datetimes, whole seconds) -----------------------------
+
+REG.model("datetime", builtin=True, fields={"ts": "int"})
+DT_MIN, DT_MAX = -62135596800, 253402300799
+
+
+@ext("datetime.datetime.fromtimestamp")
+def _fromtimestamp(ex, st, args, kwargs, k, where):
+    x = ex.unwrap_strict(args[0])
+    t = ex.num(x)
+    ok = And(Le(I(DT_MIN), t), Le(t, I(DT_MAX)))
+    outs = []
+    if Not(ok).s != "false":
+        outs += ex.raise_(st.assume(Not(ok)), "ValueError", f"year out of range at {where}")
+    s2, obj = ex.alloc_obj(st.assume(ok), "datetime")
+    s2 = ex.write_field(s2, obj, "ts", VInt(t))
+    outs += k(s2, obj)
+    return outs
+
+
+def _dt_timestamp(ex, st, base, args, kwargs, k, where):
+    ts = ex.read_field(st, base, "ts")
+    return k(st, VFloat(to_real(ts.t)))
+
+
+REG.contract("datetime.timestamp", trusted=True, params={"self": "datetime"}, returns="float",
+             ensures=["result == self.ts"])
+
+
+def _float_specfns():
+    for size in (4, 8):
+        bits = size * 8
+
+        def mk(size, bits):
+            def enc(ex, st, x):
+                return VBytes(float_enc(ex, st, size, ex.unwrap(x).t))
+
+            def dec(ex, st, b):
+                return VAny(float_dec(ex, st, size, ex.unwrap(b).t, INT))
+
+            def fits(ex, st, x):
+                ex.decls.fun(f"f{bits}fits", [INT], BOOL)
+                return VBool(app(f"f{bits}fits", BOOL, ex.unwrap(x).t))
+
+            def exact(ex, st, x):
+                ex.decls.fun(f"f{bits}exact", [INT], BOOL)
+                return VBool(app(f"f{bits}exact", BOOL, ex.unwrap(x).t))
+            return enc, dec, fits, exact
+        e, d, f, x = mk(size, bits)
+        REG.specfns[f"f{bits}enc"] = e
+        REG.specfns[f"f{bits}dec"] = d
+        REG.specfns[f"f{bits}fits"] = f
+        REG.specfns[f"f{bits}exact"] = x
+
+
+_float_specfns()
